@@ -160,7 +160,9 @@ CLAIMED['C20'] = dict(
          'handles (1-2 old, 2 nursery, 1-2 boxed, nursery and full sweeps via symbolic gc_count): bytes_allocated equals the sum of '
          'the survivors\' sizes, next_gc is exactly twice that, survivors are unmarked again, the nursery is emptied. Real type sizes '
          'come from rustc -Zprint-type-sizes of the same tree. Vector growth / forwarding blocks and non-object boxed allocations '
-         '(Box<dyn Manage> sizes) are not yet covered. Found and fixed F1 (string dealloc layout) and F2 (nursery accounting).',
+         '(Box<dyn Manage> sizes) are not yet covered. C20.K4 Vm::call_native with the native summarised by its result and any number of temporary '
+         'roots left behind on the error result: the roots are released before the error is handed on (found and fixed F66: one leaked root per '
+         'caught error in the natives that call back, unbounded growth with bounded live data). Found and fixed F1 (string dealloc layout) and F2 (nursery accounting).',
     note='Trusted: rustc MIR printer and type-size printer, mirsym, block memory model (obl/memabs.py: usize words in a z3 array, '
          '#[repr(C)] prefix punning), handle abstraction (obl/gcabs.py: identity, size, mark bit), Layout::from_size_align model, Z3.',
     ref='§4 C20')
